@@ -37,9 +37,22 @@ func lookupType(pkg *ssa.Package, name string) types.Type {
 	}
 	ptr := strings.HasPrefix(name, "*")
 	n := strings.TrimPrefix(name, "*")
-	obj := pkg.Pkg.Scope().Lookup(n)
+	scope := pkg.Pkg.Scope()
+	if i := strings.Index(n, "."); i >= 0 {
+		found := false
+		for _, imp := range pkg.Pkg.Imports() {
+			if imp.Name() == n[:i] {
+				scope, n, found = imp.Scope(), n[i+1:], true
+				break
+			}
+		}
+		if !found {
+			panic(fmt.Errorf("contract: unknown package in type %q", name))
+		}
+	}
+	obj := scope.Lookup(n)
 	if obj == nil {
-		panic(fmt.Errorf("unknown type %q in contract", name))
+		panic(fmt.Errorf("contract: unknown type %q", name))
 	}
 	if ptr {
 		return types.NewPointer(obj.Type())
@@ -151,6 +164,12 @@ func (ex *Exec) VerifyFunc(fn *ssa.Function, fc *contract.Func, cs *contract.Cas
 	entry.Fr = nil
 	ex.entryOld = entry
 	ex.entryArgs = args
+	ex.frameAllowed, ex.frameAny, ex.frameOn = nil, nil, false
+	if fc != nil && (fc.HasAssigns || fc.Flags["pure"]) {
+		ex.frameAllowed, ex.frameAny = ex.frameSets(entry, fn, fc, args)
+		ex.frameOn = true
+		ex.frameFn = fn
+	}
 	defer func() { ex.entryOld = nil; ex.entryArgs = nil }()
 	outs := ex.Run(fn, st, args, nil)
 	nret := 0
@@ -204,6 +223,30 @@ func (ex *Exec) VerifyFunc(fn *ssa.Function, fc *contract.Func, cs *contract.Cas
 
 // frameObligations: every modified heap cell is covered by an assigns location.
 func (ex *Exec) frameObligations(st, entry *State, fn *ssa.Function, fc *contract.Func, args []Val, pos string) {
+	allowed, anyRef := ex.frameSets(entry, fn, fc, args)
+	al0 := ex.allocOf(entry)
+	alF := ex.allocOf(st)
+	for _, k := range st.ModifiedHeapKeys() {
+		newArr := st.Heap[k]
+		oldArr := ex.heap0Arr(k, ex.heapSort[k])
+		if newArr == oldArr || anyRef[k] {
+			continue
+		}
+		x := ex.boundName("x")
+		var ds []string
+		for _, r := range allowed[k] {
+			ds = append(ds, smt.Eq(x, r))
+		}
+		// objects created by this call
+		ds = append(ds, smt.And(smt.Sel(alF, x), smt.Not(smt.Sel(al0, x))))
+		ds = append(ds, smt.Eq(smt.Sel(newArr, x), smt.Sel(oldArr, x)))
+		ex.AddObl(st, "frame", fmt.Sprintf("frame/%s@%s", k, pos), pos, smt.Forall([][2]string{{x, "Ref"}}, smt.Or(ds...)))
+	}
+}
+
+// frameSets: heap keys the contract allows to change, per reference (allowed) or for every
+// object (anyRef).
+func (ex *Exec) frameSets(entry *State, fn *ssa.Function, fc *contract.Func, args []Val) (map[string][]string, map[string]bool) {
 	sc := ex.scopeFor(fn, entry, nil, args, nil)
 	allowed := map[string][]string{} // heap key -> refs
 	anyRef := map[string]bool{}
@@ -243,23 +286,7 @@ func (ex *Exec) frameObligations(st, entry *State, fn *ssa.Function, fc *contrac
 			}
 		}
 	}
-	for _, k := range st.ModifiedHeapKeys() {
-		newArr := st.Heap[k]
-		oldArr := ex.heap0Arr(k, ex.heapSort[k])
-		if newArr == oldArr || anyRef[k] {
-			continue
-		}
-		x := ex.boundName("x")
-		var ds []string
-		for _, r := range allowed[k] {
-			ds = append(ds, smt.Eq(x, r))
-		}
-		for _, r := range ex.freshRefs {
-			ds = append(ds, smt.Eq(x, r)) // objects allocated by this call
-		}
-		ds = append(ds, smt.Eq(smt.Sel(newArr, x), smt.Sel(oldArr, x)))
-		ex.AddObl(st, "frame", fmt.Sprintf("frame/%s@%s", k, pos), pos, smt.Forall([][2]string{{x, "Ref"}}, smt.Or(ds...)))
-	}
+	return allowed, anyRef
 }
 
 func leafSuffixes(t types.Type) []string {
